@@ -3,12 +3,66 @@ CFG = {
     "harness": "c04",
     "runs": [
         {"harness": "c04"},
-        # the same concurrent harness once more under the race detector (needs cgo; works in this sandbox)
+        # the same concurrent harness once more under the race detector (needs cgo: CGO_ENABLED=1 works in this sandbox);
+        # race reports become direct violations; the slowdown also widens the link -> fullyLinked windows (that is how D31 surfaced)
         {"harness": "c04", "name": "c04_race", "build_flags": ["-race"], "build_env": {"CGO_ENABLED": "1"}, "extra": "race"},
     ],
-    "level_text": "draft",
-    "level_note": "draft",
+    "widen_runs": 1,
+    "widen_timeout": 1500,
+    "level_text": (
+        "Partial. Proved in Coq for all inputs: (1) the sequential model of skipmap/skipset (lane-0 chain with oracle node "
+        "heights, cached length, highestLevel; Store/Load/LoadOrStore/LoadOrStoreLazy/LoadAndDelete/Delete/Range/Len/Clear/"
+        "Keys/Values/Size/Empty/Put/Get/Remove and AddB/Add/ContainsB/Contains/RemoveB/Remove/...) refines a finite map / "
+        "finite set for every operation list and every height oracle >= 1 (C04_seq_map, C04_seq_set): Len = size, Len after "
+        "Clear = 0, keys strictly ascending so Range/Keys ascend, the lazy constructor runs exactly once per successful insert "
+        "and never otherwise; (2) the history checker lin_check (DFS over minimal pending operations with a dead-configuration "
+        "cache) is sound and complete for linearizability w.r.t. the map and set specs, cutting at quiescent points is exact "
+        "(lin_segments), and range_ok_b decides the Range clause. NOT proved: that the concurrent Go code is linearizable. Real "
+        "interleavings are sampled, not proved: every check run records small concurrent histories of the real code (2-8 "
+        "goroutines, 1-3 keys, 4-8 operations each, fresh structure per round, quiescent Len/Keys/Values/Empty appended) and "
+        "each recorded history is decided inside Coq by the verified lin_check / range_ok_b; the sequential model is tied to "
+        "the code on every run by traces compared result-by-result with the Spec (kind 2) and result+lane/level/highestLevel/"
+        "length dump with the Model (kind 1)."
+    ),
+    "level_note": (
+        "Concurrency is PARTIAL: histories are samples of the Go scheduler, no theorem covers the optimistic find/lock/validate/"
+        "link protocol (the LazySkip.v protocol model of DESIGN §4 was not built), upper-lane linking order, the highestLevel CAS, "
+        "or the memory model. Seeded in-code yield points were NOT added: a `verifYield(k)` line inside Store/Delete/... would "
+        "touch existing lines, which hooks must not do; scheduling is perturbed from outside instead (GOMAXPROCS cycling "
+        "1/2/4/16, a spinning per-operation barrier that releases all goroutines together in 3 of 4 rounds, seeded "
+        "runtime.Gosched()/busy spins between operations, busy co-runners, and a second run of the concurrent harness built with "
+        "-race whose slowdown widens the windows). Stamps: invocation before the call, response after it, one atomic counter, so a "
+        "linearizable execution is never rejected. Clear is not concurrency-safe by construction (plain stores to header/"
+        "highestLevel) and is exercised sequentially only. Range under concurrency is judged by RangeOK (strictly ascending, no "
+        "repeat, every key with an insert/observation completed before the call and no overlapping removal is visited, every "
+        "visited key was inserted by an operation invoked before the response); visited values are not judged. The sequential "
+        "model keeps lane 0 only (a node of height h is on lanes 0..h-1 by construction; the harness checks the real lanes "
+        "against the level field) and does not model the `level > hl` retry of LoadOrStore(Lazy), locks, flags or retries. "
+        "Typed variants (Int64Map, StringMap, ...) do not exist in this fork: the generic comparator-based Map/Set are "
+        "instantiated with int64, string, int under a reversed comparator, a struct key under a hand-written comparator, and the "
+        "mutex wrappers MapSafe/SetSafe. Defects: D8 repaired by patches 0008/0009; two further defects found by the concurrent "
+        "tie (D30 Store lost update vs LoadAndDelete, D31 half-linked node visible to Store/LoadOrStore but not to Load/Delete) "
+        "are repaired by the proposed patches 0033/0034; the check exits 0 only with all four applied."
+    ),
     "theorems": [("C04.Props", ["C04_seq_map", "C04_seq_set", "C04_seq_map_state", "C04_seq_set_state", "C04_len_after_clear",
                                 "C04_lazy_once", "C04_spec_map_laws", "C04_lin_check_map", "C04_lin_check_set",
                                 "C04_lin_segments", "C04_range_ok_b"])],
+    "trusted": [
+        "height oracle: node heights are premises of the refinement theorems (>= 1, what randomLevel() returns); the harness "
+        "injects them through the reassignable fastrand.Uint32 and reads them back through the verif accessor VerifShape",
+        "order isomorphisms between the int64 key codes of the cases and the Go key types/comparators used (harness glue)",
+        "history recording (atomic stamp counter, per-goroutine logs) and the derivation of key events for the Range clause "
+        "(Check.map_events/set_events) are unverified glue; the decision on each history is the verified lin_check",
+        "race detector (second run) and the 20 s per-round deadlock watchdog decide outside Coq",
+    ],
+    "modelled": [
+        "Go scheduler, memory model, sync.Mutex, sync/atomic: exercised, not modelled",
+        "optimistic find/lock/validate/link protocol, marked/fullyLinked flags, upper lanes, highestLevel CAS: exercised by the "
+        "concurrent histories only (no protocol theorem)",
+        "runtime.fastrand behind randomLevel(): replaced by an oracle in sequential traces, left alone in concurrent rounds",
+    ],
+    "assumptions": [
+        "comparators used are strict total orders consistent with the key encoding",
+        "a recorded concurrent history has at most 8 goroutines x 8 operations + 4 quiescent observations (small by construction)",
+    ],
 }
